@@ -456,13 +456,13 @@ class H:
                     cands = []
                     if p.fvr is not None:
                         try:
-                            for k in _np.nonzero(CTX.mask & ~_np.asarray(p.fvr, dtype=bool))[0][:3]:
+                            for k in _np.nonzero(CTX.mask_opt & ~_np.asarray(p.fvr, dtype=bool))[0][:3]:
                                 env = {n: builtins.float(v[k]) for n, v in CTX.fvs.items() if _np.isfinite(v[k])}
                                 if env:
                                     cands.append(env)
                         except Exception:
                             cands = []
-                    self.checks.append(dict(name=nm, bad=bad, snap=snap, trivial=False, mask=CTX.mask.copy(),
+                    self.checks.append(dict(name=nm, bad=bad, snap=snap, trivial=False, mask=CTX.mask_opt.copy(),
                                             exact=dict(CTX.exact), cands=cands))
         else:
             self.checks.append(dict(name=name, ok=p.len, info=p.info))
